@@ -228,7 +228,7 @@ def part_p(i, r, case, lo=0, hi=None):
 
 
 def part_s32(r, case):
-    """Single precision, nearly critical systems (cycle weight 1 - 2^-k, k = 6..22) in the Real and Log semirings, 1x1
+    """Single precision, nearly critical systems (log of the cycle weight -2^-k, k = 6..22, and -1e-3 .. -3e-8) in the Real and Log semirings, 1x1
     and as a 2-cycle, through Semiring.solve, PatternedTensor.solve and multi_solve: the pivot is within 1e-7..1e-2 of
     the semiring one, where star() must not lose its digits.  Oracle: the float32 inputs themselves, read back in
     50-digit arithmetic."""
@@ -237,11 +237,15 @@ def part_s32(r, case):
     from fggs.multi import MultiTensor, multi_solve
     mp = mpmath.mp.clone() if hasattr(mpmath.mp, 'clone') else mpmath.mp
     mp.dps = 50
-    for k in range(6, 23):
-        a = 1.0 - 2.0 ** -k
+    import math
+    lws = [-(2.0 ** -k) for k in range(6, 23)] + [-1e-3, -1e-4, -1e-5, -1e-6, -3e-7, -1e-7, -3e-8]      # log of the cycle weight
+    for k, lw in enumerate(lws):
+        a = math.exp(lw)
         for sem in ('real', 'log'):
             S = IR.semiring(sem, 'float32')
             e = (lambda v: torch.tensor(v, dtype=torch.float32)) if sem == 'real' else (lambda v: torch.tensor(v, dtype=torch.float64).log().to(torch.float32))
+            if sem == 'real' and float(torch.tensor(a, dtype=torch.float32)) >= 1.0:
+                continue      # the weight rounds to one in single precision: the system is critical, not nearly critical
             for shape in ('1x1', '2-cycle'):
                 key = (case, k, sem, shape)
                 try:
@@ -273,7 +277,7 @@ def part_s32(r, case):
                         if not (abs(g - w_) <= tol):
                             badfn = (fn, got)
                 if badfn:
-                    r.bad('not-least-solution', 'semirings.' + type(S).__name__ + '.solve', sem + '/float32-near-critical', '%s float32 %s with cycle weight 1-2^-%d: %s gives %r, the solution of the float32 system is %r' % (sem, shape, k, badfn[0], badfn[1], want), case, key)
+                    r.bad('not-least-solution', 'semirings.' + type(S).__name__ + '.solve', sem + '/float32-near-critical', '%s float32 %s with cycle log-weight %r: %s gives %r, the solution of the float32 system is %r' % (sem, shape, lw, badfn[0], badfn[1], want), case, key)
                 else:
                     r.ok(key, outcome=(sem, 'float32-near-critical'), nontrivial=True)
 
